@@ -110,7 +110,12 @@ LeafBdCount(e, Q, eps) ==
 \* within eps of the (topological) boundary of Den(e): the eps-stencil is mixed
 NearBd(e, Q, eps) == {In(e, P) : P \in Stencil(e, Q, eps)} = {TRUE, FALSE}
 \* in the closed set up to tolerance
-InTol(e, Q, eps) == \E P \in Stencil(e, Q, eps) : In(e, P)
+\* membership up to tolerance: the axis stencil first (cheap); at sharp corners (a 45-degree vertex after a non-axis
+\* rotation) the set may pass between the stencil points, so every lattice point of the (eps+1)-box is tried before rejecting
+DenseBox(e, Q, eps) == {ShiftAll(Q, sh) : sh \in [Coords(e, Q) -> -eps..eps]}
+InTol(e, Q, eps) == (\E P \in Stencil(e, Q, eps) : In(e, P)) \/ (\E P \in DenseBox(e, Q, eps + 1) : In(e, P))
+\* on the boundary up to tolerance: inside and outside points within the box stencil, resp. within the dense (eps+1)-box
+NearBdTol(e, Q, eps) == NearBdBox(e, Q, eps) \/ {In(e, P) : P \in DenseBox(e, Q, eps + 1)} = {TRUE, FALSE}
 
 (* ---------------------------- free variables, partial evaluation ---------------------------- *)
 RECURSIVE FreeVars(_)
